@@ -78,6 +78,10 @@ Definition prefilter_for (x : list N) (p : prefilter) : Prop :=
   | PkFallback f => exists i1 i2, pf_new x i1 i2 = Ok f
   end.
 
+(* pair offsets are u8 values at most 254 (C19): the constants of the cost bounds depend on this *)
+Definition prefilter_small (p : prefilter) : Prop :=
+  pre_rarest_offset p <= 254 /\ match pk p with PkFallback f => pf_i1 f <= 254 | PkVec _ => True end.
+
 Lemma prefilter_find_pre_ok ar x p : bytes_ok x -> prefilter_for x p -> pre_ok x (prefilter_find ar p).
 Proof.
   intros Hx (Hoff & Hb & Hk) a' an' h' Hh'. unfold prefilter_find.
@@ -498,3 +502,67 @@ Proof.
 Qed.
 
 End Top.
+
+(* ---------- pair offsets of the prefilter built by Searcher::new are at most 254 ---------- *)
+Lemma pair_params_ok' : (pair_scan_cap <= 255)%N /\ 2 <= pair_scan_skip.
+Proof. split; [vm_compute; discriminate|vm_compute; repeat constructor]. Qed.
+
+Definition strat_small (s : searcher) : Prop :=
+  match s_strat s with STwoWayPre _ p => prefilter_small p | _ => True end.
+
+Lemma searcher_twoway_small x rk ps :
+  (forall p, ps = Some p -> prefilter_small p) ->
+  satq (new_ev x) (searcher_twoway x rk ps) strat_small.
+Proof.
+  intros Hps. unfold searcher_twoway.
+  eapply satq_bind; [apply tw_new_sat|]. intros tw _.
+  destruct ps as [p|]; (eapply satq_bind; [apply label_sat|]); intros _ _; apply satq_ret; unfold strat_small; cbn.
+  - apply Hps. reflexivity.
+  - exact I.
+Qed.
+
+Theorem searcher_new_small cfg rank ar x :
+  satq (new_ev x) (searcher_new cfg rank ar x) strat_small.
+Proof.
+  unfold searcher_new. destruct (length x <=? 1) eqn:E.
+  - destruct x as [|b t]; (eapply satq_bind; [apply label_sat|]); intros _ _; apply satq_ret; exact I.
+  - apply Nat.leb_gt in E.
+    destruct pair_params_ok' as [Hcap Hskip].
+    destruct (pair_with_ranker_spec rank x ltac:(lia) Hskip) as [_ Hsome].
+    destruct (Hsome ltac:(lia)) as (i1 & i2 & Hr & Hne & H1 & H2 & B1 & B2).
+    assert (i1 <= 254 /\ i2 <= 254) as [Hb1 Hb2] by lia.
+    eapply satq_bind.
+    { instantiate (1 := fun pr => pr = Some (i1, i2)).
+      exists (Some (i1, i2)). split; [exact Hr|]. split; [reflexivity|].
+      rewrite pair_with_ranker_quiet. constructor. }
+    intros pr ->.
+    assert (i1 =? i2 = false) as -> by (apply Nat.eqb_neq; exact Hne). cbn [negb]. rewrite bind_guard_true.
+    assert (forall isa lp lpre, satq (new_ev x) (with_vec cfg x (rk_new x) isa lp lpre i1 i2) strat_small) as Hvec.
+    { intros isa lp lpre. unfold with_vec.
+      destruct (pw_new_ok isa x i1 i2 H1 H2) as [w Hw]. rewrite Hw, bind_lift_ok.
+      destruct (do_packed_search x).
+      - eapply satq_bind; [apply label_sat|]. intros _ _. apply satq_ret. exact I.
+      - destruct cfg.
+        + apply searcher_twoway_small. discriminate.
+        + unfold prefilter_vec.
+          eapply satq_bind.
+          { eapply satq_bind; [apply label_sat|]. intros _ _.
+            destruct (pw_new_i1 isa x i1 i2 w Hw) as [Ei Hi]. rewrite Ei.
+            rewrite (idx_ok x i1 0%N Hi), bind_lift_ok. apply satq_ret.
+            instantiate (1 := prefilter_small). split; [exact Hb1|exact I]. }
+          intros p Hp. apply searcher_twoway_small. intros p' [= <-]. exact Hp. }
+    assert (satq (new_ev x) (with_fallback cfg rank x (rk_new x) i1 i2) strat_small) as Hfb.
+    { unfold with_fallback. destruct cfg.
+      - apply searcher_twoway_small. discriminate.
+      - unfold prefilter_fallback.
+        eapply satq_bind.
+        { rewrite (idx_ok x i1 0%N H1), bind_lift_ok.
+          instantiate (1 := fun ps => forall p, ps = Some p -> prefilter_small p).
+          destruct (max_fallback_rank <? rank (nth i1 x 0%N))%N.
+          - eapply satq_bind; [apply label_sat|]. intros _ _. apply satq_ret. discriminate.
+          - unfold pf_new. rewrite (idx_ok x i1 0%N H1), (idx_ok x i2 0%N H2), bind_lift_ok.
+            eapply satq_bind; [apply label_sat|]. intros _ _. apply satq_ret.
+            intros p [= <-]. split; [exact Hb1|exact Hb1]. }
+        intros ps Hps. apply searcher_twoway_small. exact Hps. }
+    destruct ar as [[| |]| | |]; first [apply Hvec|apply Hfb].
+Qed.
